@@ -3,7 +3,8 @@
 
    Spec/Builtins.v            : what each operation of the four multi-framework groups means (exact rationals, ASCII text).
    Model/MissingValuePyDict.v : data_quality/missing_value/python_dict.py, as written (loops, Counter, index updates).
-   Model/TextCleanPyDict.v    : text_cleaning/python_dict.py on ASCII text, as written (regex \s+, strip, translate).
+   Model/TextCleanPyDict.v    : text_cleaning/python_dict.py on ASCII text, as written (regex \s+, strip, translate; remove_urls =
+                                two re.sub passes as a scanning automaton `sub_del` over the match-at-position tests).
    Model/BuiltinsFw.v         : the conventions of pandas.py / pyarrow.py where they STILL differ from the spec (open findings:
                                 std/var ddof, pandas sum of an all-null column, pandas' RE2 white-space class).
    Gen/Vocab.v                : REGENERATED from /repo: vocabulary accepted by every framework subclass.
@@ -18,6 +19,7 @@ From Coq Require Import QArith List Bool Arith ZArith String Ascii Permutation L
 Import ListNotations.
 Require Import MV.Spec.Builtins MV.Model.MissingValuePyDict MV.Model.TextCleanPyDict MV.Model.BuiltinsFw MV.Gen.Vocab.
 Require Import MV.Proofs.BuiltinsP MV.Proofs.ImputeP MV.Proofs.ImputeGroupedP MV.Proofs.TextCleanP MV.Proofs.WindowP.
+Require Import MV.Proofs.RemoveUrlsP.
 Open Scope Q_scope.
 
 (* ============================================ vocabulary (T1) ============================================ *)
@@ -266,3 +268,68 @@ Theorem C19_pandas_regex_space_refuted :
   pd_clean [CSpecial] s = [ascii_of_nat 97; ascii_of_nat 98] /\ py_clean [CSpecial] (Some s) = s.
 Proof. vm_compute. repeat split. Qed.
 Print Assumptions C19_pandas_regex_space_refuted.
+
+(* ================================= remove_urls (URLs first, then e-mail addresses) ================================= *)
+Open Scope list_scope.
+(* Model: `sub_del sp m` = re.sub(pattern, "", s) for a pattern whose matches run to the end of the `\S` run (m = does the
+   pattern match AT this position), `url_pass` / `email_pass` = the two substitutions of `_remove_urls`, `two_pass` their
+   composition.  sp = the `\s` class of the regular-expression engine: re_space (Python `re`) or re2_space (RE2, pandas). *)
+(* both implementations are, by their source text, the SAME two-pass composition (only the `\s` class of the engine differs) *)
+Theorem C19_remove_urls_both_two_pass : forall s,
+  py_remove_urls s = two_pass re_space s /\ pd_remove_urls s = two_pass re2_space s.
+Proof. exact both_are_two_pass. Qed.
+Print Assumptions C19_remove_urls_both_two_pass.
+(* per-token characterisation: a token w (no `\s` character) followed by the end of the text or a `\s` character:
+   pass 1 keeps what precedes the first place where http:// , https:// or www. is followed by one more character of the token,
+   pass 2 drops what is left iff it is x@y.z (x, y, z non-empty); the rest of the text is treated independently *)
+Theorem C19_remove_urls_token : forall sp, sp = re_space \/ sp = re2_space -> forall w r,
+  (forall a, In a w -> sp a = false) -> match r with [] => True | a :: _ => sp a = true end ->
+  url_pass sp (w ++ r) = url_cut w ++ url_pass sp r /\
+  email_pass sp (w ++ r) = email_keep w ++ email_pass sp r /\
+  two_pass sp (w ++ r) = email_keep (url_cut w) ++ two_pass sp r.
+Proof. exact remove_urls_token_l. Qed.
+Print Assumptions C19_remove_urls_token.
+(* white space is never touched *)
+Theorem C19_remove_urls_whitespace : forall sp a r, sp a = true ->
+  url_pass sp (a :: r) = a :: url_pass sp r /\ email_pass sp (a :: r) = a :: email_pass sp r /\
+  two_pass sp (a :: r) = a :: two_pass sp r.
+Proof. exact remove_urls_ws_l. Qed.
+Print Assumptions C19_remove_urls_whitespace.
+(* hence the PythonDict code computes the token-wise spec on every ASCII text *)
+Theorem C19_pydict_remove_urls_refines : forall s, py_remove_urls s = remove_urls s.
+Proof. exact py_remove_urls_refines. Qed.
+Print Assumptions C19_pydict_remove_urls_refines.
+(* a text without "http", "www." and "@", and a text of white space only, is unchanged (any `\s` class) *)
+Theorem C19_remove_urls_unchanged : forall sp s,
+  (has_sub (lit "http") s = false /\ has_sub (lit "www.") s = false /\ ~ In ch_at s) \/ (forall a, In a s -> sp a = true) ->
+  two_pass sp s = s.
+Proof. exact remove_urls_unchanged_l. Qed.
+Print Assumptions C19_remove_urls_unchanged.
+(* each pass, and the operation, is idempotent *)
+Theorem C19_remove_urls_passes_idempotent : forall sp, sp = re_space \/ sp = re2_space -> forall s,
+  url_pass sp (url_pass sp s) = url_pass sp s /\ email_pass sp (email_pass sp s) = email_pass sp s /\
+  two_pass sp (two_pass sp s) = two_pass sp s.
+Proof. exact remove_urls_idem_l. Qed.
+Print Assumptions C19_remove_urls_passes_idempotent.
+(* pandas = PythonDict unless the text holds \v or \x1c-\x1f (open finding C19-pandas-regex-space-class) *)
+Theorem C19_pandas_remove_urls_partial : forall s, no_odd s -> pd_remove_urls s = py_remove_urls s.
+Proof. exact pd_remove_urls_same. Qed.
+Print Assumptions C19_pandas_remove_urls_partial.
+Theorem C19_pandas_remove_urls_refuted :
+  let s := txt "www.a" ++ [ascii_of_nat 11; ascii_of_nat 98] in
+  pd_remove_urls s = [] /\ py_remove_urls s = [ascii_of_nat 11; ascii_of_nat 98].
+Proof. vm_compute. split; reflexivity. Qed.
+Print Assumptions C19_pandas_remove_urls_refuted.
+(* ONE substitution with the alternation  https?://\S+|www\.\S+|\S+@\S+\.\S+  is a DIFFERENT function: when a URL and an
+   e-mail address overlap in one token the leftmost match wins *)
+Example C19_remove_urls_single_pass_refuted :
+  alt_remove_urls re_space (txt "mail admin@www.example.com today") = txt "mail  today" /\
+  py_remove_urls (txt "mail admin@www.example.com today") = txt "mail admin@ today" /\
+  pd_remove_urls (txt "mail admin@www.example.com today") = txt "mail admin@ today" /\
+  alt_remove_urls re_space (txt "source:https://files.example.org/u@host.io/report end") = txt " end" /\
+  py_remove_urls (txt "source:https://files.example.org/u@host.io/report end") = txt "source: end".
+Proof. vm_compute. repeat split. Qed.
+Example C19_remove_urls_ex :
+  remove_urls (txt "see http://x.y/z?q=1 and www.foo.com or me@x.org, www. http:// x@y a@b.c (https://h.i)") =
+  txt "see  and  or  www. http:// x@y  (".
+Proof. vm_compute. reflexivity. Qed.
